@@ -70,12 +70,13 @@ def adopt(args):
     if not verdict:
         print(out0[-300:], "\n----\n", out1[-300:])
         return 1
-    d = os.path.join(HERE, "seeded", f"{prop}-{i}")
+    out_i = args.as_ or i
+    d = os.path.join(HERE, "seeded", f"{prop}-{out_i}")
     os.makedirs(d, exist_ok=True)
     shutil.copy(patch, os.path.join(d, "patch.diff"))
     shutil.copy(os.path.join(wt, "demo", demo), os.path.join(d, "demo.py"))
     meta = {
-        "id": f"{prop}-{i}", "property": prop, "source": "independent sub-agent given only the property text and a scratch worktree",
+        "id": f"{prop}-{out_i}", "property": prop, "source": "independent sub-agent given only the property text and a scratch worktree",
         "needs": args.needs or "", "confirmed": {
             "pinned_tests_with_patch": tline, "demo_without_patch_rc": rc0, "demo_with_patch_rc": rc1,
             "demo_output_with_patch": out1[-400:],
@@ -225,6 +226,7 @@ def main():
     a.add_argument("worktree")
     a.add_argument("i")
     a.add_argument("--needs")
+    a.add_argument("--as", dest="as_")
     r = sub.add_parser("run")
     r.add_argument("ids", nargs="*")
     r.add_argument("--tier", default="quick")
